@@ -65,10 +65,30 @@ def gen_mixed(rng, n, avoid_f14=False, avoid_f15=False, avoid_f16=False):
         elif r < 0.57:
             cid = rng.choice(["-", "-"] + CLIENTS + REMOTE)
             ops.append("del svc=%s ip=%s port=%d cid=%s now=%d" % (svc, addr[0], addr[1], cid, now))
-        elif r < 0.6:
+        elif r < 0.585:
             # the apply of a committed Raft removal of a persistent record (sent on deregistration of a persistent
             # instance and when a persistent instance is re-registered as ephemeral)
             ops.append("raftrm svc=%s ip=%s port=%d now=%d" % (svc, addr[0], addr[1], now))
+        elif r < 0.605:
+            # what a peer's sync sends: a batch of (ephemeral, replicated) instances, a batch of removals, the clients of
+            # a node that went away
+            kind = rng.choice(["updbatch", "updbatch", "delbatch", "rmclients"])
+            if kind == "rmclients":
+                ops.append("rmclients %s now=%d" % (" ".join(rng.sample(CLIENTS + REMOTE, rng.randrange(1, 4))), now))
+            else:
+                parts = []
+                for _ in range(rng.randrange(1, 4)):
+                    bs, ba = rng.choice(SVCS), rng.choice(ADDRS)
+                    origin = rng.choice(["sync", "syncgrpc"])
+                    old = owner.get((bs, ba))
+                    if avoid_f14 and old and old["grpc"] == 1 and origin == "sync":
+                        continue
+                    line, d = upd(rng, bs, ba, origin, now, tag="-")
+                    if kind == "updbatch":
+                        owner[(bs, ba)] = d
+                    parts.append(" ".join(w for w in line.split()[1:] if not w.startswith(("now=", "tag=", "sync="))))
+                if parts:
+                    ops.append("%s now=%d | %s" % (kind, now, " | ".join(parts)))
         elif r < 0.62:
             # the TCP probe of a persistent instance's host reports its result
             ops.append("probe svc=%s ip=%s port=%d ok=%d now=%d" % (svc, addr[0], addr[1], rng.randrange(2), now))
@@ -82,8 +102,12 @@ def gen_mixed(rng, n, avoid_f14=False, avoid_f15=False, avoid_f16=False):
             ops.append("setprotect svc=%s p=%d" % (svc, rng.choice([0, 300, 500, 1000])))
         elif r < 0.86:
             ops.append("list svc=%s ho=%d" % (svc, rng.randrange(2)))
-        elif r < 0.9:
+        elif r < 0.88:
             ops.append("all svc=%s" % svc)
+        elif r < 0.895:
+            ops.append("ipage svc=%s ho=%d size=%d idx=%d" % (svc, rng.randrange(2), rng.choice([1, 2, 3, 10]), rng.choice([0, 1, 1, 2, 3])))
+        elif r < 0.9:
+            ops.append("selectone svc=%s" % svc)
         elif r < 0.93:
             ops.append(rng.choice(["info", "clients"]))
         else:
@@ -91,6 +115,8 @@ def gen_mixed(rng, n, avoid_f14=False, avoid_f15=False, avoid_f16=False):
     ops.append("audit")
     for s in SVCS:
         ops.append("list svc=%s ho=1" % s)
+        ops.append("ipage svc=%s ho=0 size=2 idx=%d" % (s, rng.choice([1, 2])))
+        ops.append("selectone svc=%s" % s)
     return ops
 
 
